@@ -27,6 +27,9 @@ pub struct SoloCfg {
     pub wall_cap_s: f64,
     pub max_depth: usize,
     pub with_tcs: bool,
+    /// a few INVALID messages (forged in the node's own name, carrying unsigned certificates,
+    /// below-quorum TC): they must have no effect, and the monitors must stay silent
+    pub with_invalid: bool,
 }
 
 pub struct Uni2 {
@@ -141,6 +144,32 @@ pub fn menu(s: &Search, sc: &SoloCfg, u: &Uni2, stale_blocks: &[Block]) -> Vec<E
                 push(ConsensusMessage::TC(w.tc(r, &others.iter().map(|o| (*o, c)).collect::<Vec<_>>())), &mut evs);
             }
         }
+    }
+    if sc.with_invalid {
+        use crypto::Digest;
+        let mut bs: Vec<&Block> = u.blocks.values().filter(|b| b.author != w.name(t)).collect();
+        bs.sort_by_key(|b| (b.round, b.digest()));
+        // a vote in the node's OWN name signed by somebody else
+        if let Some(b) = bs.first() {
+            let mut v = w.vote(others[0], b);
+            v.author = w.name(t);
+            push(ConsensusMessage::Vote(v), &mut evs);
+        }
+        // timeouts of another member (correctly signed: the signature covers only the rounds)
+        // carrying an UNSIGNED certificate for a block
+        for b in bs.iter().take(2) {
+            let fake = QC { hash: b.digest(), round: b.round, votes: vec![] };
+            push(ConsensusMessage::Timeout(w.timeout(others[1], b.round + 1, fake.clone())), &mut evs);
+            let far = sc.max_round.max(b.round + 1);
+            push(ConsensusMessage::Timeout(w.timeout(others[1], far, fake)), &mut evs);
+        }
+        // a timeout in the node's own name signed by somebody else
+        let mut tmo = w.timeout(others[0], 1, QC::genesis());
+        tmo.author = w.name(t);
+        push(ConsensusMessage::Timeout(tmo), &mut evs);
+        // a TC below quorum
+        push(ConsensusMessage::TC(w.tc(2, &[(others[0], 0), (others[1], 0)])), &mut evs);
+        let _ = Digest::default();
     }
     evs
 }
@@ -292,5 +321,6 @@ pub fn default_cfg(node: usize, r: Round, tier: Tier) -> SoloCfg {
         wall_cap_s: tier.pick(40.0, 600.0),
         max_depth: tier.pick(4, 6),
         with_tcs: true,
+        with_invalid: true,
     }
 }
